@@ -4,15 +4,24 @@ import json
 T="symbolic execution of go/ssa built from /repo's working tree + SMT (z3 / cvc5 bv-as-int / z3-new); counterexamples replayed against the native build"
 NOTE="solver unsat answers trusted; bounds, stubs and assumptions are listed per harness in the evidence file; counterexamples are replayed natively before being reported (except harnesses that need contract stubs, marked replay=no)"
 C={
-"C02":"bounded symbolic execution of the real search-filter comparison (ApplySearchToExpressionFilterSimpleCsg..compareNumberDte), string equality and time-range functions; each assertion discharged by SMT for all values within the stated bounds (numeric core of C02; wildcard/regex/where-evaluator outside the claim)",
-"C03":"soundness of skipping: for every value inside a range micro-index bracket and every literal/operator, a matching value implies the block is kept (CheckRangeIndex), the index update brackets every value across type changes (updateRangeIndex), and time pruning never drops a block holding an in-range record",
-"C04":"bounded symbolic execution of the real time-bucket function over all 64-bit ranges/steps (cvc5 bv-as-int for the division kernel)",
-"C08":"bounded symbolic execution of the real Gorilla codec: value and timestamp halves of one step from an arbitrary valid codec state, bit I/O at every alignment, and 2-3 point streams through the public entry points, all 2^64 value bit patterns",
-"C10":"bounded symbolic execution of Wal.Append / DPWalIterator.Next on a file model: log cut at every byte yields exactly the complete blocks; one altered byte at any position never yields an altered datapoint",
+"C01":"bounded symbolic execution of the log round trip's byte-level codecs: block timestamps (writer encodeTimestamps vs reader convertRawRecordsToTimestamps), block summaries with column offset tables, the chunked column buffer across the 16 KiB boundary, the dictionary block (checkAddDictEnc/PackDictEnc vs ReadDictEnc) and the column-alignment step (doLogEventFilling for 2-3 events x 2 columns walked back with the reader's own record-length logic); JSON tokenizer, zstd and files outside the claim",
+"C02":"bounded symbolic execution of the real search-filter comparison (ApplySearchToExpressionFilterSimpleCsg..compareNumberDte) for all numeric values within 2^53 and six operators, string equality, time-range functions, the AND/OR/NOT combination of per-record match sets (executeRawSearchOnNode..updateMatchedRecords over eight node shapes) and JoinRequest's block/column union; wildcard/regex/where-evaluator outside the claim",
+"C03":"soundness of skipping and of acceleration paths: a matching value keeps its block in the range micro-index (CheckRangeIndex/updateRangeIndex), time pruning never drops a block holding an in-range record, the dictionary path selects exactly the records the per-record check selects, and the ingest-time pre-aggregated statistics equal the raw aggregate",
+"C04":"bounded symbolic execution of the real time-bucket function over all 64-bit ranges/steps (cvc5 bv-as-int for the division kernel) and of the merge of two segments' pre-aggregated statistics (count/sum/avg/min/max)",
+"C05":"bounded symbolic execution of the sort comparator (consistent with the numeric order, antisymmetric, transitive), head-based paging over real IQRs, the segment scheduling rounds, and the multi-stream merge with a limit (DataProcessor.getStreamInput: exactly the first N rows of the merged order for every distribution over streams and batches)",
+"C06":"bounded symbolic execution of head/tail/dedup over real IQRs with a free partition of T<=4 rows into batches, of bin's first pass (min/max of the whole stream for any batching, all finite floats) and of a two-pass read through the merge (Rewind then the same rows again)",
+"C07":"crash point as a free variable on a file model: WriteSfm rewrite and ChecksumFile partial-chunk append stopped before any file-system operation (writes possibly torn) leave the old or the new document / every earlier chunk intact; the startup scan registers exactly the segment directories holding a complete .sfm, whatever mixture of states a crashed history left (narrow claim, see DESIGN.md)",
+"C08":"bounded symbolic execution of the real Gorilla codec: value and timestamp halves of one step from an arbitrary valid codec state, bit I/O at every alignment, 2-3 point streams through the public entry points over all 2^64 value bit patterns; series identity (TSID) and TSO lookup for small tag sets",
+"C09":"bounded symbolic execution of Series.AddEntry/Merge/Downsample/AggregateFromSingleTimeseries (bucket values equal sum/min/max/avg of their points for any split into merged series) and of the regex label-matcher predicate with Go's regexp interpreted from source (whole-value match)",
+"C10":"bounded symbolic execution of Wal.Append / DPWalIterator.Next on a file model: a log cut at every byte yields exactly the complete blocks, one altered byte never yields an altered datapoint; appendToWALBuffer with rotation and a crash before any file-system operation followed by RecoverWALData replays exactly the appended batches",
 "C12":"bounded symbolic execution of quickSelect/FindPercentileData (N<=4/6 durations) and BuildSpanTree (3 spans, all parent shapes incl. cycles and missing parents)",
-"C16":"symbolic execution of ExtractTimeStamp/ConvertTimestampToMillis over every integer timestamp in the seconds, millisecond and nanosecond bands in number, decimal-point-number and string forms (time half of C16 only)",
-"C18":"bounded symbolic execution of ChecksumFile append/read under one altered byte or truncation at any position, and of the block-summary decoders on arbitrary files up to 40 bytes: original bytes or an error, never a panic",
-"C20":"bounded symbolic execution of handleAlertCondition/NotifyAlertHandlerRequest over all outcome histories of length 4/5 against an in-memory database and a symbolic clock (first sentence of C20 only)",
+"C13":"bounded symbolic execution of FilterSegmentsByTime / FilterUnrotatedSegmentsInQuery over 2-3 segments (returned iff index named, organisation is the requester's, range overlaps), of index-expression expansion with Go's regexp interpreted from source, and of alias add/remove histories (an alias resolves to the last written indexes of its tenant)",
+"C14":"bounded symbolic execution of DoRetentionBasedDeletion (victims are exactly the requester's expired segments; idempotent), of the in-memory removal (a deleted segment is in no list, survivors listed once, ties included) and of the metrics meta rewrite over the file model (survivors keep directory, entry and shared tags tree)",
+"C15":"bounded symbolic execution of HandleBulkBody over bodies of 1-3(4) actions with free action/index/size/parse/store outcomes: one item per action, created iff handed to the store and stored, errors flag iff some item failed",
+"C16":"symbolic execution of ExtractTimeStamp/ConvertTimestampToMillis over every integer timestamp in the seconds, millisecond and nanosecond bands in number, decimal-point-number and string forms, and of the handler-set event time through ProcessIndexRequestPle (time half of C16 only)",
+"C18":"bounded symbolic execution of ChecksumFile append/read under one altered byte or truncation at any position, of the block-summary, TSO/TSG, timestamp-block and Gorilla decoders on arbitrary bytes, and of the column-file and timestamp-file readers over damaged two-block files in any load order: original values or an error, never a panic or another block's data",
+"C19":"bounded symbolic execution of the lookup-file handlers and the inputlookup command with a free client-supplied name of up to 7 bytes against a path monitor: every path handed to the os package stays under the data directory",
+"C20":"bounded symbolic execution of handleAlertCondition/NotifyAlertHandlerRequest over all outcome histories of length 4/5 against an in-memory database and a symbolic clock, and of the index-alias keyed store (add/remove histories, restart) over the file model; other saved objects outside the claim",
 }
 import sys
 extra=json.load(open('/verif/tools/manifest_extra.json')) if __import__('os').path.exists('/verif/tools/manifest_extra.json') else {}
@@ -31,7 +40,7 @@ m={"version":1,
  "not_applicable":[
   {"property_id":"C11","reason":"quantifies over goroutine schedules and lock interleavings; the encoder is a sequential SSA interpreter and no encoding of Go's scheduler/memory model is within reach (DESIGN.md §4)"},
   {"property_id":"C17","reason":"24k-line generated PEG parsers over symbolic bytes explode beyond any useful bound; the query life-cycle half is goroutines, channels and timers (DESIGN.md §4)"}],
- "notes":"checks for the remaining properties are being added; see DESIGN.md. Genuine defects found by the checks and repaired in /repo are listed as 'fixed' in known_findings.json."}
+ "notes":"what each check covers, its bounds and what lies outside them: DESIGN.md section 7 and the evidence files. Genuine defects found by the checks and repaired in /repo are listed as 'fixed' in known_findings.json."}
 NA=json.load(open('/verif/tools/manifest_na.json')) if __import__('os').path.exists('/verif/tools/manifest_na.json') else []
 m["not_applicable"]+=NA
 json.dump(m,open('/verif/MANIFEST.json','w'),indent=1)
